@@ -10,6 +10,7 @@ import (
 	"github.com/BurntSushi/toml"
 	"github.com/grafana/carbon-relay-ng/aggregator"
 	"github.com/grafana/carbon-relay-ng/cfg"
+	"github.com/grafana/carbon-relay-ng/destination"
 	"github.com/grafana/carbon-relay-ng/imperatives"
 	"github.com/grafana/carbon-relay-ng/table"
 	log "github.com/sirupsen/logrus"
@@ -73,6 +74,14 @@ func Apply(t table.Interface, cmd string) error {
 	applyMu.Lock()
 	defer applyMu.Unlock()
 	return imperatives.Apply(t, cmd)
+}
+
+// ParseDestinations builds destinations the way addRoute does (same command scanner, same lock as Apply).
+func ParseDestinations(t table.Interface, routeKey string, specs ...string) ([]*destination.Destination, error) {
+	InitRepo()
+	applyMu.Lock()
+	defer applyMu.Unlock()
+	return imperatives.ParseDestinations(specs, t, false, routeKey)
 }
 
 // ProbeOnline dispatches unique probe lines through dispatch() until one shows
